@@ -60,6 +60,8 @@ type engInput struct {
 	OptCheck  bool       `json:"optCheck"`
 	Sweep     int        `json:"sweep"`
 	Scripts   []scriptIn `json:"scripts"`
+	// bursts with a destination the kernel refuses (reply to the loopback broadcast address), after the traced load
+	Poison int `json:"poison"`
 	ScriptPar int        `json:"scriptPar"`
 }
 
@@ -1384,6 +1386,16 @@ func TestEngineLoad(t *testing.T) {
 		res.Violate("after/goroutines", fmt.Sprintf("[%s] goroutines did not return to the pre-load count: %d > %d",
 			in.Name, runtime.NumGoroutine(), baseG+extraReaders),
 			map[string]any{"driver": "c10-engine", "config": in, "after": after, "stacks": string(buf[:min(len(buf), 20000)])})
+	}
+
+	// ---- a destination the kernel refuses inside a transmit batch (trace hook off) ----
+	if in.Poison > 0 {
+		server.SetVerifUDPTrace(nil)
+		poisonPhase(&in, res, rand.New(rand.NewSource(seed*31+7)), mk, nClients-3, uaddr, in.Poison)
+		if !waitFor(10*time.Second, rg.srv.Quiesced) {
+			res.Violate("after/quiescence", fmt.Sprintf("[%s] the server did not return to quiescence after bursts holding a refused destination", in.Name),
+				map[string]any{"driver": "c10-engine", "config": in})
+		}
 	}
 
 	// ---- bookkeeping -------------------------------------------------------
